@@ -281,3 +281,22 @@ Theorem c04_K2_changes_cut_points :
         {| cp_ordinal := 1; cp_to_seq := 1; cp_already := true; cp_latest := Some 4 |} ].
 Proof. exact K2_changes_cut_points. Qed.
 Print Assumptions c04_K2_changes_cut_points.
+
+(* ... and with the ordinal-index route (count, ordinal look-ups, their fallbacks) in the model as well: outside
+   K1, K2 and K3 the cut points are the truth answer.  K3 (¬OrdFaithful): the complete records of the index
+   are not a prefix of the projection, or an aligned index is not all of it. *)
+Theorem c04_cut_points_eq_truth_partial :
+  forall (me mb : N) (comp full : sfile) (l : log) (ord : ofile) (known : N -> bool) (stride limit : N),
+  valid_log l = true -> log_lens_pos l = true -> FullFaithful l full -> CompFaithful l comp full -> OrdFaithful l ord ->
+  cut_points_ord me mb comp full l ord known stride limit = cut_points_truth l stride limit.
+Proof. exact cut_points_ord_eq_truth. Qed.
+Print Assumptions c04_cut_points_eq_truth_partial.
+
+Theorem c04_K3_changes_cut_points :
+  valid_log wlog5 = true /\ ~ OrdFaithful wlog5 (OFile [1; 5] 0)
+  /\ fst (cut_points_ord 100 1000 None (Some (project_full wlog5)) wlog5 (OFile [1; 5] 0) (fun _ => true) 1 4) = 2
+  /\ map cp_to_seq (snd (cut_points_ord 100 1000 None (Some (project_full wlog5)) wlog5 (OFile [1; 5] 0) (fun _ => true) 1 4)) = [5; 1]
+  /\ fst (cut_points_truth wlog5 1 4) = 3
+  /\ map cp_to_seq (snd (cut_points_truth wlog5 1 4)) = [5; 3; 1].
+Proof. exact K3_changes_cut_points. Qed.
+Print Assumptions c04_K3_changes_cut_points.
